@@ -91,7 +91,7 @@ func C15(t Tier) int {
 		var seq func(cur []int)
 		seq = func(cur []int) {
 			if len(cur) > 0 {
-				for arr := 0; arr < 5; arr++ {
+				for arr := 0; arr < 6; arr++ {
 					for fi, fee := range fees {
 						// build the message list for this arrangement
 						var msgs []sdk.Msg
@@ -155,6 +155,29 @@ func C15(t Tier) int {
 							if bn == "empty" {
 								expectOK = false
 							}
+						case 5: // the same one-shot message twice (+ the rest of the sequence): the repetition fails, so nothing may stay
+							if len(cur) != 1 {
+								continue
+							}
+							rep := []struct {
+								name string
+								msg  sdk.Msg
+							}{
+								{"create-topic-twice", aoltypes.NewMsgCreateTopic("rep", "", e.A.Bech)},
+								{"transfer-denom-twice", pnfttypes.NewMsgTransferRequest("d", e.A.Bech, e.B.Bech)},
+								{"transfer-pnft-twice", pnfttypes.NewMsgTransferPNFTRequest("d", "t", e.A.Bech, e.B.Bech)},
+								{"delete-writer-twice", aoltypes.NewMsgDeleteWriter("a", e.W.Bech, e.A.Bech)},
+								{"create-denom-twice", pnfttypes.NewMsgCreateDenomRequest("rep", "S", "n", "", "", "", e.A.Bech, "")},
+								{"burn-pnft-twice", pnfttypes.NewMsgBurnPNFTRequest("d", "t", e.A.Bech)},
+							}
+							if cur[0] >= len(rep) {
+								continue
+							}
+							r := rep[cur[0]]
+							msgs = append(msgs, r.msg, r.msg)
+							names = append(names, r.name, r.name)
+							addSigner(e.A)
+							expectOK = false
 						case 2: // messages of two different signers in one transaction
 							for i, mi := range cur {
 								a := e.A
@@ -167,6 +190,9 @@ func C15(t Tier) int {
 							}
 						}
 						for i, mi := range cur {
+							if arr == 5 {
+								break
+							}
 							if (arr == 1 || arr == 3) && i == 0 {
 								continue
 							}
@@ -278,7 +304,7 @@ func C15(t Tier) int {
 	sort.Strings(oc)
 	run.Coverage["evaluations"] = evals
 	run.Coverage["distinct_nontrivial"] = okTx + failedTx
-	run.Coverage["rule"] = "in each base state (empty, populated) every transaction of 1..3 messages drawn from {one succeeding, one failing message per custom module} x fee in {0, 1000umed, 1000umed+5uxyz} x arrangement in {single signer A; add-record with named fee payer F first (signers [F,W]); the same with a fee payer sorting on the other side of the writer; messages of A and B alternating; messages of A followed by an add-record naming fee payer F (signers [A,F,W], payer A)}, delivered on a fork of the real deliver state; all bank balances and the total supply are compared before/after. non-trivial = transactions that reached DeliverTx with the expected verdict"
+	run.Coverage["rule"] = "in each base state (empty, populated) every transaction of 1..3 messages drawn from {one succeeding, one failing message per custom module} x fee in {0, 1000umed, 1000umed+5uxyz} x arrangement in {single signer A; add-record with named fee payer F first (signers [F,W]); the same with a fee payer sorting on the other side of the writer; messages of A and B alternating; messages of A followed by an add-record naming fee payer F (signers [A,F,W], payer A); the same one-shot message twice in one transaction (must fail as a whole)}, delivered on a fork of the real deliver state; all bank balances and the total supply are compared before/after. non-trivial = transactions that reached DeliverTx with the expected verdict"
 	run.Coverage["samples"] = samples
 	run.Coverage["exhaustive"] = true
 	run.Coverage["succeeded"] = okTx
